@@ -14,6 +14,11 @@ structure DState where
   dec : List (Nat × List Byte × DecodeRes) := []
   /-- the real machine may hold partial effects of a failed instruction: state is unspecified -/
   poisoned : Bool := false
+  /-- `nomodel`: the rest of this case is not answered by the model (histories of tens of thousands of steps, judged by the
+      generator's expectations and the crash oracle alone) -/
+  muted : Bool := false
+  /-- did the last `step` succeed, as far as the model knows (`none`: not known) -/
+  lastStepOk : Option Bool := none
   /-- a failed instruction may have updated the flags before its write-back failed -/
   flagsUnknown : Bool := false
   builtin : Bool := false
@@ -61,6 +66,18 @@ def handleReg (st : DState) (ws : List String) : Option (DState × String) :=
           | .wrote => "ok" | .rejected => "err" | .crashed => "panic" | .value _ => "bad")
       else none
     | _, _, _ => none
+  | ["rrok", w, r] =>
+    match st.lastStepOk with
+    | none => some (st, "unspecified")
+    | some false => some (st, "step-failed")
+    | some true =>
+      if st.poisoned then some (st, "unspecified") else
+      match w.toNat?, parseReg? r with
+      | some w, some r =>
+        let (_, res) := regStep st.m.regs (.read w r)
+        some (st, match res with
+          | .value v => "ok " ++ toHex v.toNat | .rejected => "err" | .crashed => "panic" | .wrote => "bad")
+      | _, _ => none
   | ["rr", w, r] =>
     match w.toNat?, parseReg? r with
     | some w, some r =>
@@ -134,7 +151,7 @@ def stateLine (m : Machine) (flagsUnknown : Bool := false) : String :=
 /-- scripted hook: logs (id, phase, rip, count), optionally edits a register, then reports its outcome -/
 def scriptedHook (id phase outcome : String) (edit : Option (Fin 16 × BitVec 64)) : HookFn := fun s =>
   -- "tryreg": the hook tries to register hooks itself; while a hook runs both attempts are refused and change nothing
-  let suffix := if outcome == "tryreg" then (if s.hooksRunning then ":rej11" else ":rej00") else ""
+  let suffix := if outcome == "tryreg" || outcome == "stoptryreg" then (if s.hooksRunning then ":rej11" else ":rej00") else ""
   let s1 := { s with log := s.log ++ [s!"{id}:{phase}:{toHex s.regs.rip.toNat}:{s.count}:{if s.hooksRunning then 1 else 0}{suffix}"] }
   let s2 := match edit with
     | some (i, v) => { s1 with regs := s1.regs.set i v }
@@ -143,6 +160,7 @@ def scriptedHook (id phase outcome : String) (edit : Option (Fin 16 × BitVec 64
   | "error" => .err s2
   | "errorempty" => .err s2
   | "stoperror" => .err { s2 with finished := true }
+  | "stoptryreg" => .ok .unhandled { s2 with finished := true }
   | "handled" => .ok .handled s2
   | "stop" => .ok .unhandled { s2 with finished := true }
   | "stophandled" => .ok .handled { s2 with finished := true }
@@ -222,7 +240,8 @@ def handleMachine (st : DState) (ws : List String) : Option (DState × String) :
     let r := step hooks (decodeFn st.dec) st.m
     -- a failing instruction handler changes nothing but (possibly) the flags; a failing built-in hook may leave more
     let poisoned := r.out == .panic
-    some ({ st with m := unblock r.s, poisoned := poisoned, flagsUnknown := st.flagsUnknown || r.errInExec }, stepOutStr r.out)
+    some ({ st with m := unblock r.s, poisoned := poisoned, flagsUnknown := st.flagsUnknown || r.errInExec,
+                    lastStepOk := some (match r.out with | .ok _ => true | _ => false) }, stepOutStr r.out)
   | ["execute", fuel] => do
     let fuel ← fuel.toNat?
     if st.poisoned then some (st, "unspecified") else
@@ -264,7 +283,29 @@ def handleMachine (st : DState) (ws : List String) : Option (DState × String) :
   | ["callstack"] =>
     if st.poisoned then some (st, "unspecified") else
     some (st, if st.m.callStack.isEmpty then "none" else " ".intercalate (st.m.callStack.map toHex))
-  | ["render"] => some (st, "ok")
+  -- the renderers never fail (neither by crashing nor by returning an error), whatever the program did
+  | ["render"] => some (st, "ok t=ok c=ok")
+  | ["tracetail", n] => do
+    let n ← parseHex? n
+    if st.poisoned then pure (st, "unspecified") else
+    let t := st.m.trace
+    let tail := t.drop (t.length - n)
+    pure (st, toString t.length ++ " " ++ (if tail.isEmpty then "" else traceLine tail))
+  | ["xmmok", i] => do
+    let i ← i.toNat?
+    match st.lastStepOk with
+    | none => pure (st, "unspecified")
+    | some false => pure (st, "step-failed")
+    | some true =>
+      if st.poisoned then pure (st, "unspecified") else
+      if h : i < 16 then pure (st, toHex st.m.regs.xmm[i].toNat) else none
+  | ["xmm", i] => do
+    let i ← i.toNat?
+    if st.poisoned then pure (st, "unspecified") else
+    if h : i < 16 then pure (st, toHex st.m.regs.xmm[i].toNat) else none
+  | ["fill", a, n, v] => do
+    let a ← parseHex? a; let n ← parseHex? n; let v ← parseHex? v
+    pure (memRes st (memWriteBytes st.m.mem a ((List.replicate n (leBytes 8 v)).flatten)))
   | ["nonative"] => some (st, "-")
   | ["errtext", _] => some (st, "-")
   | ["table"] =>
@@ -404,7 +445,9 @@ def handleNew (st : DState) (code start rip : String) : DState × String :=
   | _, _, _ => (st, "bad-op")
 
 def handle (st : DState) (ws : List String) : DState × String :=
+  if st.muted && !(match ws with | w :: _ => w == "new" || w == "newraw" | [] => false) then (st, "unspecified") else
   match ws with
+  | ["nomodel"] => ({ st with muted := true }, "-")
   | ["new"] =>
     match Machine.new Regs.zero [0x90#8] 0x1000 0x1000 with
     | .ok s => ({ m := s }, "ok")
